@@ -18,10 +18,13 @@ def notes_level_text(pid):
     body = re.sub(r"\s+", " ", m.group(1)).strip().strip("`")
     return body
 for pid in ALL:
-    if pid not in CLAIMED and os.path.exists(os.path.join(HERE, "..", "harness", pid.lower() + ".py")):
+    if os.path.exists(os.path.join(HERE, "..", "harness", pid.lower() + ".py")):
         body = notes_level_text(pid)
         if body:
-            CLAIMED[pid] = {"text": body, "note": "Details, theorem list and mutation results: notes/notes_%s.md." % pid}
+            # the notes of the most recent (deepening) pass describe the current state
+            entry = CLAIMED.setdefault(pid, {})
+            entry["text"] = body
+            entry["note"] = (entry.get("note", "") + " Details, theorem list and mutation results: notes/notes_%s.md." % pid).strip()
 TRUST = ("Trusted: Coq 8.16.1 kernel (full .vo build; vm_compute only over finite generated tables and for the evaluator cross-check; "
          "no native_compute); every theorem is reported 'Closed under the global context' by Print Assumptions (no axioms) unless the "
          "evidence file names one; extraction (ExtrOcamlBasic directives only) + 15-line OCaml driver, cross-checked against vm_compute "
